@@ -113,6 +113,8 @@ func isNamedRecvOrParam(f *ssa.Function, name string) bool {
 func runC04(r *Run, p *Prog) {
 	// T10: routing is a function of the method string alone only if the table lookup does not keep the Service mutex across dispatch or reply
 	siblingRules(r, p, "C10", []string{"S6"}, "T10")
+	// T11: the interface part selects the registered interface only if registration files it under exactly the name it reports
+	siblingRules(r, p, "C13", []string{"M2"}, "T11")
 	ro := DiscoverRoles(p)
 	T := ro.T
 	if ro.Handle == nil {
